@@ -143,6 +143,8 @@ def run_history(case, model, with_model=True):
     classes.add("wt" if cfg[4] else "wb")
     classes.add("plru" if cfg[3] else "lru")
     itrace = []
+    rejected_sets = set()       # sets whose reference directory was advanced the way the CODE treats a rejected access
+    set_of = lambda a: ((a % 2 ** 32) >> (cfg[1] + 2)) & ((1 << cfg[0]) - 1)
     for k, op in enumerate(ops):
         before_logical, _ = logical_bytes(ms, mem)
         cyc0 = pm.cycles
@@ -152,7 +154,8 @@ def run_history(case, model, with_model=True):
         if op[0] == 3:
             classes.add("inspect")
             if itrace[-1][2:] != (itrace[-2][2:] if len(itrace) > 1 else itrace[-1][2:]) or pen:
-                out["C03"].append(("violation", f"op {k}: an inspection call changed the cache state, lower memory or the cycle counter"))
+                # (purity of inspection is property C16; here it is a deviation from the model — a resulting wrong READ is a C03 violation below)
+                out["corr"].append(("disagreement", f"op {k}: an inspection call changed the cache state, lower memory or the cycle counter"))
             continue
         if op[0] == 2:
             # reset(): everything stored is dropped, the statistics counters are kept
@@ -163,9 +166,11 @@ def run_history(case, model, with_model=True):
             rc.hits, rc.accesses, rc.last = keep
             al, _ = logical_bytes(ms, mem)
             if al or mem.memory_file:
-                out["C12"].append(("violation", f"op {k}: after reset() the memory system still holds data {sorted(al.items())[:4]}"))
+                out["corr"].append(("disagreement", f"op {k}: after reset() the memory system still holds data {sorted(al.items())[:4]}"))
             if [ms.hits, ms.accesses] != [rc.hits, rc.accesses]:
-                out["C09"].append(("violation", f"op {k}: reset() changed the data-cache counters"))
+                # (what reset() does to the data-cache counters is not part of C09; the model mirrors the code, which keeps them)
+                out["corr"].append(("disagreement", f"op {k}: reset() changed the data-cache counters"))
+                rc.hits, rc.accesses, rc.last = ms.hits, ms.accesses, bool(ms.last_was_hit)
             continue
         width = op[1] // 8
         off = op[2] % 4
@@ -181,9 +186,10 @@ def run_history(case, model, with_model=True):
             classes.add("direct")
         elif cross:
             classes.add("cross-word")
-            if err is None or err[0] != 2:
-                if not (err is not None and err[0] == 1):      # a range error is an acceptable rejection
-                    out["C03"].append(("violation", f"{tagop}: access crossing a word boundary was not rejected (result {r})"))
+            if err is None:
+                out["C03"].append(("violation", f"{tagop}: access crossing a word boundary was not rejected (result {r})"))
+            elif err[0] not in (1, 2):
+                out["corr"].append(("disagreement", f"{tagop}: cross-word access rejected with an unexpected kind of error {err}"))
             if after_logical != before_logical:
                 diff = sorted(set(after_logical.items()) ^ set(before_logical.items()))[:4]
                 out["C03"].append(("violation", f"{tagop}: rejected/cross-word access changed stored values {diff}"))
@@ -193,6 +199,9 @@ def run_history(case, model, with_model=True):
                 # a rejected access is outside the accounting claim, but the read path looks the block up
                 # (and fills it) before the lane check, and the write-back write path looks it up: the
                 # reference directory follows so that later accesses are judged against the right contents
+                # (whether a rejected access may fill / touch its block is NOT fixed by the property: from here on a hit/miss
+                #  mismatch in this set is a deviation from the model, not a C09 violation)
+                rejected_sets.add(set_of(op[2]))
                 if is_read:
                     rc.touch(op[2], True)
                 elif not cfg[4]:
@@ -201,8 +210,10 @@ def run_history(case, model, with_model=True):
             rr = ref.access(op)
             if rr[0] == "range":
                 classes.add("range-error")
-                if err is None or err[0] != 1:
+                if err is None:
                     out["C03"].append(("violation", f"{tagop}: flat memory faults at {rr[1]:#x} but the cached access returned {r}"))
+                elif err[0] != 1:
+                    out["corr"].append(("disagreement", f"{tagop}: out-of-range access rejected with an unexpected kind of error {err}"))
                 if after_logical != before_logical:
                     out["C03"].append(("violation", f"{tagop}: rejected out-of-range access changed stored values"))
             else:
@@ -226,7 +237,11 @@ def run_history(case, model, with_model=True):
                     got = [ms.hits, ms.accesses, bool(ms.last_was_hit), pen]
                     want = [rc.hits, rc.accesses, rc.last, exp_pen]
                     if got != want:
-                        out["C09"].append(("violation", f"{tagop}: (hits, accesses, last_hit, penalty) = {got}, reference cache {want}"))
+                        if set_of(op[2]) in rejected_sets:
+                            out["corr"].append(("disagreement", f"{tagop}: (hits, accesses, last_hit, penalty) = {got}, reference cache {want} (set touched by a rejected access before)"))
+                            rc.hits, rc.accesses, rc.last = ms.hits, ms.accesses, bool(ms.last_was_hit)
+                        else:
+                            out["C09"].append(("violation", f"{tagop}: (hits, accesses, last_hit, penalty) = {got}, reference cache {want}"))
         if direct or (cross and err is not None) :
             # counters must not move on direct writes; rejected accesses are outside the accounting claim,
             # so resynchronise the reference counters with the implementation after a rejection
